@@ -436,6 +436,9 @@ def c08(tier):
                 plan2.append(plan_line(f[0], "depth %d" % d, tt="fresh" if d == 1 else "warm", tag="near"))
         else:
             plan2.append(plan_line(f[0], "depth 11", tt="fresh", tag="zz"))
+    for fen in [l.strip() for l in open(os.path.join(DATA, "roots_nearmate_found.fen")) if l.strip() and not l.startswith("#")]:
+        for d in [2, 3, 4]:
+            plan2.append(plan_line(fen, "depth %d" % d, tt="fresh", tag="near"))
     zz = [l.strip() for l in open(os.path.join(DATA, "roots_zugzwang.fen")) if l.strip() and not l.startswith("#")]
     for fen in zz:
         plan2.append(plan_line(fen, "depth 11", tt="fresh", tag="zz"))
